@@ -609,9 +609,17 @@ def rule_invalidation_tables(check, rule, precision_rule=None):
                 check.violation(rule, st, 'visit_Name taints %s instead of invalidating the name' % show(tgt)[:60], key=key,
                                 guards=' & '.join(show_lit(l) for l in p.lits))
             continue
+        known = None
+        for a, pol in p.lits:
+            if a[0] == 'in' and a[1] == ('A', nodep, 'id') and a[2][0] == 'A' and a[2][2] == 'namespace':
+                known = pol
         if skip:
             if imm is True and load is True:
                 check.holds(rule, st, 'a name is left alone only when it holds an immutable value and is merely read', key=key)
+            elif known is False and load is True:
+                # (D44) a name no scope of the function knows -- a global, a builtin -- is not a parameter or local variable, so not one of
+                # the containers being forwarded, and no reader can rebind it
+                check.holds(rule, st, 'a name the namespace does not know (a global, a builtin) is left alone when it is merely read', key=key)
             else:
                 check.violation(rule, st, 'visit_Name leaves a name untouched although it is %s' % (
                     'not known to hold an immutable value' if imm is not True else 'not merely read (store/delete context)'), key=key,
@@ -623,6 +631,23 @@ def rule_invalidation_tables(check, rule, precision_rule=None):
             else:
                 check.violation(rule, st, 'visit_Name stores %s under %s instead of marking the name unknown' % (show(v)[:40], show(sets[0].args[0])[:30]), key=key)
     check.floor(rule, 'paths of visit_Name', n, 2)
+    if precision_rule:
+        # (D44) completeness: the callee of functools.partial(callee, *args, **kwargs) is an argument, so it is read like any name; if that
+        # makes the global unknown, a second such call -- or the second look at a loop body -- cannot resolve it and discovery is abandoned
+        kept = False
+        for p in paths:
+            lits = dict(p.lits)
+            if lits.get(('in', ('A', nodep, 'id'), ('A', ('P', fi.params()[0][0]), 'namespace'))) is False \
+                    and not [e for e in p.effects if e.kind == 'mut' and e.op == 'setitem']:
+                kept = True
+        st = site_of(fi, fi.node)
+        if kept:
+            check.holds(precision_rule, st, 'reading a name the namespace does not know (a global) leaves it as it is', key='visit_Name|global-read-kept')
+        else:
+            check.violation(precision_rule, st, 'visit_Name makes every name that is read unknown, globals included: the callee handed to '
+                            'functools.partial(callee, *args, **kwargs) is lost for a second such call or inside a loop (whose body is looked at '
+                            'twice), and discovery falls back to the plain signature', key='visit_Name|global-read-kept',
+                            witness='def w(p, *args, **kwargs):\n    for _ in range(2):\n        r = partial(callee, 1, *args, **kwargs)\n    return r')
     # Marker.get_untainted
     fi = repo.func(AF + ':Marker.get_untainted')
     check.analysed(fi)
